@@ -230,7 +230,7 @@ def check_series(part: Part, vals, calc, core):
                 pm[M.duration] != (idx[-1] - idx[0]) + (idx[1] - idx[0]):
             part.violation("C20|performance_metrics|period", "start/end/duration wrong",
                            {"fn": "performance_metrics", "series": fv, "interval": freq, "metric": "period"})
-        if i_freq == 1 and n >= 3:
+        if i_freq == 1 and 3 <= n <= 5:  # (how the index is stored does not interact with the length of the series: lengths up to 5 in both tiers)
             # the same series as it arrives from other sources: a time index stored at another resolution (ns / ms / s), and a time-zone-aware index of a zone
             # whose clocks change inside the run (bars evenly spaced in TIME): duration and interval are spans of time, not of index units or wall-clock readings
             variants = [(f"unit={u}", s.set_axis(idx.as_unit(u))) for u in ("ns", "ms", "s")]
@@ -255,7 +255,7 @@ def check_series(part: Part, vals, calc, core):
                                    {"fn": "performance_metrics", "series": fv, "interval": freq, "metric": vname},
                                    {"annualized_return": vpm[M.annualized_return], "expected": v_apr, "volatility": vpm[M.volatility], "expected_volatility": v_vol})
                     break
-        if n >= 4 and i_freq % 2 == 0:
+        if 4 <= n <= 5 and i_freq % 2 == 0:
             # a bar is missing from the history (an outage): the run still lasts from its first bar to the end of its last one, whatever the number of rows
             hidx = pd.date_range("2024-01-01", periods=n + 1, freq=freq).delete(n // 2 + 1)
             hs = pd.Series(fv, index=hidx)
